@@ -117,6 +117,18 @@ async fn run_op(store: &FileStore, log_manager: &Addr<RaftLogManager>, index_man
             Err(_) => "err".to_string(),
         },
         ["files"] => "files".to_string(),
+        // the catalogue of log files as the index file holds it: id:start:count:split:closed per file, in order
+        ["cat"] => match index_manager.send(rnacos::raft::filestore::raftindex::RaftIndexRequest::LoadIndexInfo).await {
+            Ok(Ok(rnacos::raft::filestore::raftindex::RaftIndexResponse::RaftIndexInfo { raft_index, .. })) => {
+                let rows: Vec<String> = raft_index
+                    .logs
+                    .iter()
+                    .map(|l| format!("{}:{}:{}:{}:{}", l.id, l.start_index, l.record_count, l.split_off_index, if l.is_close { 1 } else { 0 }))
+                    .collect();
+                format!("cat {}", if rows.is_empty() { "-".to_string() } else { rows.join(",") })
+            }
+            _ => "err".to_string(),
+        },
         _ => "bad-op".to_string(),
     }
 }
